@@ -872,3 +872,49 @@ twin('c18-fill-float', 'C18', PR + 'xsquared.py', 'XSquared.__init__', 'self.upp
      'self.upperBoundOfFloatVariables.fill(1.0)')
 twin('c18-gkls-comp', 'C18', PR + 'GKLS.py', 'GKLS.__init__', 'self.lowerBoundOfFloatVariables = dimension * [-1]',
      'self.lowerBoundOfFloatVariables = [-1 for _ in range(dimension)]')
+
+# ----------------------------------------------------------------------------- generic behaviour-preserving edits
+# prop '*': every claimed property's checker must stay silent on these
+def gtwin(id, file, func, old, new, why='', also=None):
+    CORPUS.append(Edit(id, '*', file, func, old, new, 'silent', None, why, also))
+
+
+gtwin('g-print-in-loop', P, 'Process.DoGlobalIteration', '                self.method.FinalizeIteration()\n',
+      '                self.method.FinalizeIteration()\n                print("iteration", self.method.GetIterationsCount())\n')
+gtwin('g-rename-locals', M, 'Method.CalculateGlobalR', '        zl = left_point.GetZ()\n        zr = curr_point.GetZ()\n',
+      '        zl = left_point.GetZ()\n        zr = curr_point.GetZ()\n        z_left, z_right = zl, zr\n        zl, zr = z_left, z_right\n')
+gtwin('g-helper-rM', M, 'Method.CalculateGlobalR', 'globalR = 2 * deltax - 4 * (zr - self.Z[v]) / (r * self.M[v])',
+      'globalR = 2 * deltax - 4 * (zr - self.Z[v]) / self._rM(v)',
+      also=[(M, 'Method', '    def FinalizeIteration(self) -> None:', '    def _rM(self, v):\n        return self.parameters.r * self.M[v]\n\n    def FinalizeIteration(self) -> None:')])
+gtwin('g-delta-module-function', M, 'Method.CalculateDelta', 'return pow(rx - lx, 1.0 / dimension)', 'return _holder_delta(lx, rx, dimension)',
+      also=[(M, None, 'class Method:', 'def _holder_delta(lx, rx, dimension):\n    return pow(rx - lx, 1.0 / dimension)\n\n\nclass Method:')])
+gtwin('g-new-attribute', M, 'Method.__init__', '        self.stop: bool = False\n', '        self.stop: bool = False\n        self.name = "AGP"\n')
+gtwin('g-results-local', P, 'Process.DoGlobalIteration',
+      '        for listener in self.__listeners:\n            listener.OnEndIteration(savedNewPoints, self.GetResults())',
+      '        current = self.GetResults()\n        for listener in self.__listeners:\n            listener.OnEndIteration(savedNewPoints, current)')
+gtwin('g-optimum-local-index', M, 'Method.UpdateOptimum', '        if self.best is None or self.best.GetIndex() < point.GetIndex():',
+      '        idx = point.GetIndex()\n        if self.best is None or self.best.GetIndex() < idx:')
+gtwin('g-finalize-print', M, 'Method.FinalizeIteration', '        self.iterationsCount += 1',
+      '        self.iterationsCount += 1\n        if self.iterationsCount % 1000 == 0:\n            print("iterations:", self.iterationsCount)')
+gtwin('g-new-listener', LS, None, '# moode: objective function, approximation, only points',
+      'class CountingListener(Listener):\n    def __init__(self):\n        self.calls = 0\n\n    def OnEndIteration(self, savedNewPoints, solution):\n        self.calls += 1\n\n\n# moode: objective function, approximation, only points')
+gtwin('g-renew-left-local', M, 'Method.RenewSearchData',
+      '        oldpoint.delta = Method.CalculateDelta(newpoint.GetX(), oldpoint.GetX(), self.dimension)\n        newpoint.delta = Method.CalculateDelta(oldpoint.GetLeft().GetX(), newpoint.GetX(), self.dimension)\n\n        self.CalculateM(newpoint, oldpoint.GetLeft())\n        self.CalculateM(oldpoint, newpoint)\n\n        self.CalculateGlobalR(newpoint, oldpoint.GetLeft())',
+      '        left = oldpoint.GetLeft()\n        oldpoint.delta = Method.CalculateDelta(newpoint.GetX(), oldpoint.GetX(), self.dimension)\n        newpoint.delta = Method.CalculateDelta(left.GetX(), newpoint.GetX(), self.dimension)\n\n        self.CalculateM(newpoint, left)\n        self.CalculateM(oldpoint, newpoint)\n\n        self.CalculateGlobalR(newpoint, left)')
+gtwin('g-count-local', SD, 'SearchData.GetCount', '        return len(self._allTrials)', '        n = len(self._allTrials)\n        return n')
+gtwin('g-image-local', EV, 'Evolvent.GetImage', '        return np.copy(self.yValues)', '        res = np.copy(self.yValues)\n        return res')
+gtwin('g-rastrigin-local', PR + 'rastrigin.py', 'Rastrigin.Calculate', '        sum: np.double = 0\n',
+      '        sum: np.double = 0\n        xs = point.floatVariables\n')
+gtwin('g-solver-reorder', SV, 'Solver.__init__',
+      '        self.evolvent = Evolvent(problem.lowerBoundOfFloatVariables, problem.upperBoundOfFloatVariables,\n                                 problem.numberOfFloatVariables, parameters.evolventDensity)\n        self.task = OptimizationTask(problem)\n',
+      '        self.task = OptimizationTask(problem)\n        self.evolvent = Evolvent(problem.lowerBoundOfFloatVariables, problem.upperBoundOfFloatVariables,\n                                 problem.numberOfFloatVariables, parameters.evolventDensity)\n')
+gtwin('g-stop-locals', M, 'Method.CheckStopCondition',
+      '        if self.min_delta < self.parameters.eps or self.iterationsCount >= self.parameters.itersLimit:',
+      '        accurate = self.min_delta < self.parameters.eps\n        exhausted = self.iterationsCount >= self.parameters.itersLimit\n        if accurate or exhausted:')
+gtwin('g-solve-result-early', P, 'Process.Solve', '        result = self.GetResults()\n        result.solvingTime',
+      '        result = self.searchData.solution\n        result.solvingTime')
+gtwin('g-insert-no-flag', SD, 'SearchData.InsertDataItem',
+      '        flag = True\n        if rightDataItem is None:\n            rightDataItem = self.FindDataItemByOneDimensionalPoint(newDataItem.GetX())\n            flag = False\n',
+      '        hinted = rightDataItem is not None\n        flag = hinted\n        if not hinted:\n            rightDataItem = self.FindDataItemByOneDimensionalPoint(newDataItem.GetX())\n')
+gtwin('g-new-problem', PR + 'xsquared.py', None, 'class XSquared(Problem):',
+      'class XCubedAbs(Problem):\n    def __init__(self, dimension: int):\n        super(XCubedAbs, self).__init__()\n        self.dimension = dimension\n        self.numberOfFloatVariables = dimension\n        self.numberOfObjectives = 1\n        self.numberOfConstraints = 0\n        self.floatVariableNames = np.ndarray(shape=(self.dimension), dtype=str)\n        for i in range(self.dimension):\n            self.floatVariableNames[i] = i\n        self.lowerBoundOfFloatVariables = np.ndarray(shape=(self.dimension), dtype=np.double)\n        self.lowerBoundOfFloatVariables.fill(-1)\n        self.upperBoundOfFloatVariables = np.ndarray(shape=(self.dimension), dtype=np.double)\n        self.upperBoundOfFloatVariables.fill(2)\n        self.knownOptimum = np.ndarray(shape=(1), dtype=Trial)\n        pointfv = np.ndarray(shape=(self.dimension), dtype=np.double)\n        pointfv.fill(0)\n        KOpoint = Point(pointfv, [])\n        KOfunV = np.ndarray(shape=(1), dtype=FunctionValue)\n        KOfunV[0] = FunctionValue()\n        KOfunV[0].value = 0\n        self.knownOptimum[0] = Trial(KOpoint, KOfunV)\n\n    def Calculate(self, point: Point, functionValue: FunctionValue) -> FunctionValue:\n        s = 0.0\n        for i in range(self.dimension):\n            s += abs(point.floatVariables[i]) ** 3\n        functionValue.value = s\n        return functionValue\n\n\nclass XSquared(Problem):')
